@@ -12,8 +12,9 @@ STUBS_DEFAULT = [
     "browser-side stacks (own RFC 6455 / Engine.IO codecs in sim/ref, written from the specifications)",
 ]
 
-SESSION_RULE = ("scenario i = GenSession(property, splitmix64(VERIF_SEED,i)): server options, 1-4 clients (transport, revision, b64, JSONP, "
-                "latency, fragmentation, pong delays, upgrade time, fault plan), application sends/closes, scheduling policy (fifo+k, random walk, PCT, "
+SESSION_RULE = ("scenario i = GenSession(property, splitmix64(VERIF_SEED,i)): server options, 1-4 clients (transport, revision incl. absent/2/5 EIO parameter, b64, JSONP, "
+                "latency, fragmentation, pong delays, unsolicited pongs, data requests with or without Content-Length, payload character classes (markup, escapes, multi-byte, digits), "
+                "upgrade time, scripted / concurrent / retried upgrade candidates, fault plan), application sends/closes, slow or re-entrant listeners, scheduling policy (fifo+k, random walk, PCT, "
                 "site-biased) all drawn from the run PRNG; a run is distinct by the hash of its (task,site) hand-off sequence and event history; "
                 "non-trivial = at least 20 baton hand-offs")
 
@@ -54,14 +55,14 @@ _p("C17", assume=["preflight requests are exercised by the C05 admission scenari
 _p("C18", assume=["a deadlock is a task waiting for a lock or Once it already holds, reported by simrt with its stack"])
 
 TIMER_RULE = ("scenario i = GenTimers(splitmix64(VERIF_SEED,i)): 1-5 timers (timeout/interval, period 1-50 ms), 2-6 tasks issuing "
-              "create/refresh/stop/clear at instants on a grid around the due instants (before, exactly at, after; concurrent duplicates), "
+              "create/refresh/stop/clear at instants on a grid around the due instants (before, exactly at, after; concurrent duplicates), callbacks that take virtual time or cancel their own timer, "
               "statement-level pre-emption inside utils/timer.go; distinct by schedule+history hash")
 _p("C19", quick=40, thorough=900, rule=TIMER_RULE, quick_runs=40000,
    real=["utils/timer.go (instrumented)", "Go runtime timers and channels"], stubs=["the clock (testing/synctest)"],
    assume=["refresh after a cancellation is outside the statement and not judged", "a call at exactly the due instant may go either way unless the cancellation had already returned (event order)"])
 CONT_RULE = ("scenario i = GenCont(splitmix64(VERIF_SEED,i)): one of {map, slice, set} concurrent histories (2-8 tasks, <=3 keys, unique values, <=28 ops) "
              "checked with porcupine against sequential models; emitter concurrent histories with an interval-order oracle; Yeast/GenerateId from "
-             "several tasks inside one virtual millisecond; single-task contract sequences (aliasing, invalid indices, nil listeners) - the last kind has "
+             "several tasks inside one virtual millisecond and, with the stalled-task fault, across millisecond boundaries; single-task contract sequences (aliasing, invalid indices, nil listeners, listeners removing listeners during an emit) - the last kind has "
              "no schedule in it and is seeded model-based generation, claimed as such")
 _p("C20", quick=40, thorough=900, rule=CONT_RULE, quick_runs=40000,
    real=["types/map.go, types/slice.go, types/set.go, types/events.go, utils/yeast.go, utils/base64id.go (instrumented)"], stubs=["none"],
